@@ -246,74 +246,148 @@ Proof. exact DCMotorP.trace_ev_reachable. Qed.
 Print Assumptions C19_motor_history_events.
 
 (* ====================================================================== *)
-(* IEEE specials (findings F-C19-motor-nan-speed, F-C19-motor-nonfinite-duration); *)
-(* model of the affected validations over floats with specials: Host/ActuatorsX.v  *)
+(* IEEE specials as speeds and durations.  The three clauses below were REFUTED on the code before    *)
+(* the repair (findings F-C19-motor-nan-speed, F-C19-motor-nonfinite-duration, now kind=fixed): NaN    *)
+(* passed _clamp_speed, NaN / +inf passed the duration test and made the sleep raise after the speed  *)
+(* had been applied.  Model of the repaired validations over floats with specials: Host/ActuatorsX.v  *)
+(*   xclamp x          _clamp_speed on a float: Some clamped | None = raises ValueError               *)
+(*   mstep_x m o       set_speed / backward / ramp / run_for with arguments that may be special       *)
+(*   lower o           the ordinary call (Host/DCMotor.v) such a call amounts to, if any              *)
+(*   mrun_any ops m    histories mixing ordinary calls and calls with special arguments               *)
 (* ====================================================================== *)
 
-(* REFUTED: |speed| <= 1 for every argument - _clamp_speed returns NaN for NaN (both of its
-   comparisons are False).  Witness: set_speed(float('nan')). *)
-Theorem C19_motor_speed_bound_nan_refuted : exists x, ~ in_unit (xclamp x).
-Proof. exact ActuatorsXP.xclamp_nan_refuted. Qed.
-Print Assumptions C19_motor_speed_bound_nan_refuted.
+(* was C19_motor_speed_bound_nan_refuted (exists x, ~ in_unit (xclamp x)): |speed| <= 1 for EVERY float
+   _clamp_speed returns a value for, NaN and the infinities included ... *)
+Theorem C19_motor_speed_bound : forall x y, xclamp x = Some y -> in_unit y.
+Proof. exact ActuatorsXP.xclamp_result. Qed.
+Print Assumptions C19_motor_speed_bound.
 
-(* PARTIAL (guard: the speed argument is not NaN; +-inf are fine): the clamped speed is in [-1, 1] *)
-Theorem C19_motor_speed_bound_partial : forall x, xnan x = false -> in_unit (xclamp x).
-Proof. exact ActuatorsXP.xclamp_partial. Qed.
-Print Assumptions C19_motor_speed_bound_partial.
+(* ... and it raises (ValueError, nothing stored) exactly for NaN *)
+Theorem C19_motor_nan_speed_rejected : forall x, xclamp x = None <-> x = XNaN.
+Proof. exact ActuatorsXP.xclamp_nan. Qed.
+Print Assumptions C19_motor_nan_speed_rejected.
 
 (* on finite floats the model with specials is the model used everywhere else *)
-Theorem C19_motor_clamp_agrees : forall q, xclamp (XFin q) = XFin (clampq q).
+Theorem C19_motor_clamp_agrees : forall q, xclamp (XFin q) = Some (XFin (clampq q)).
 Proof. exact ActuatorsXP.xclamp_finite. Qed.
 Print Assumptions C19_motor_clamp_agrees.
 
-(* REFUTED: "a call that raises for an invalid scalar argument leaves the object as it was" -
-   run_for/ramp only test duration_ms < 0, which NaN and +inf pass; the sleep then raises after
-   the speed has been applied and stop() never runs.
-   Witnesses: run_for(float('nan'), 0.5) and ramp(0.5, float('inf')) on a fresh motor. *)
-Theorem C19_run_for_failed_call_atomic_refuted :
-  exists m d v m' e k, run_for_x m d v = (m', e, XRaised k) /\ m' <> m.
-Proof. exact ActuatorsXP.run_for_nonatomic_refuted. Qed.
-Print Assumptions C19_run_for_failed_call_atomic_refuted.
+(* every speed argument - int, float, bool, non-number, NaN, +-inf - yields a speed in [-1, 1] or an exception *)
+Theorem C19_motor_clamp_any_argument : forall a q, clamp_speed_x a = inl q -> -(1) <= q /\ q <= 1.
+Proof. exact ActuatorsXP.clamp_speed_x_bounds. Qed.
+Print Assumptions C19_motor_clamp_any_argument.
 
-Theorem C19_ramp_failed_call_atomic_refuted :
-  exists m t d m' e k, ramp_x m t d = (m', e, XRaised k) /\ m' <> m.
-Proof. exact ActuatorsXP.ramp_nonatomic_refuted. Qed.
-Print Assumptions C19_ramp_failed_call_atomic_refuted.
+(* was C19_run_for_failed_call_atomic_refuted / C19_ramp_failed_call_atomic_refuted, and the _partial
+   versions with the guard "the duration is neither NaN nor +inf": a failing run_for / ramp leaves the
+   object as it was, has neither applied a speed nor slept - for EVERY duration and speed, no guard *)
+Theorem C19_run_for_failed_call_atomic : forall m d v m' e k,
+  run_for_x m d v = (m', e, XRaised k) -> m' = m /\ e = [].
+Proof. exact ActuatorsXP.run_for_x_failed_atomic. Qed.
+Print Assumptions C19_run_for_failed_call_atomic.
 
-(* PARTIAL (guard: the duration is neither NaN nor +inf): failing run_for/ramp calls are atomic *)
-Theorem C19_run_for_failed_call_atomic_partial : forall m d v m' e k,
-  d <> XNaN -> d <> XPInf -> run_for_x m d v = (m', e, XRaised k) -> m' = m /\ e = [].
-Proof. exact ActuatorsXP.run_for_atomic_partial. Qed.
-Print Assumptions C19_run_for_failed_call_atomic_partial.
+Theorem C19_ramp_failed_call_atomic : forall m t d m' e k,
+  ramp_x m t d = (m', e, XRaised k) -> m' = m /\ e = [].
+Proof. exact ActuatorsXP.ramp_x_failed_atomic. Qed.
+Print Assumptions C19_ramp_failed_call_atomic.
 
-Theorem C19_ramp_failed_call_atomic_partial : forall m t d m' e k,
-  d <> XNaN -> d <> XPInf -> ramp_x m t d = (m', e, XRaised k) -> m' = m /\ e = [].
-Proof. exact ActuatorsXP.ramp_atomic_partial. Qed.
-Print Assumptions C19_ramp_failed_call_atomic_partial.
+(* the same for all four calls that take a speed or a duration *)
+Theorem C19_motor_failed_call_atomic_specials : forall m o m' e k,
+  mstep_x m o = (m', e, XRaised k) -> m' = m /\ e = [].
+Proof. exact ActuatorsXP.mstep_x_failed_atomic. Qed.
+Print Assumptions C19_motor_failed_call_atomic_specials.
 
-(* on finite durations the calls with specials are the calls of the finite model *)
+(* a NaN or infinite duration is rejected at once by both calls *)
+Theorem C19_nonfinite_duration_rejected : forall m a d,
+  xfinite d = false ->
+  run_for_x m d a = raised_x m XValueError /\ ramp_x m a d = raised_x m XValueError.
+Proof. exact ActuatorsXP.nonfinite_duration_rejected. Qed.
+Print Assumptions C19_nonfinite_duration_rejected.
+
+(* what _check_duration accepts, and that nothing it accepts makes Reduino.Utils.sleep / time.sleep raise
+   (the raise points inside _sleep that the model of run_for / ramp still contains are dead) *)
+Theorem C19_checked_duration : forall d, dur_rejected d = false <-> exists q, d = XFin q /\ 0 <= q.
+Proof. exact ActuatorsXP.dur_accepted. Qed.
+Print Assumptions C19_checked_duration.
+
+Theorem C19_checked_duration_sleeps : forall d,
+  dur_rejected d = false -> sleep_rejects d = None /\ sleep_rejects (xdiv20 d) = None.
+Proof. exact ActuatorsXP.checked_duration_never_fails_in_sleep. Qed.
+Print Assumptions C19_checked_duration_sleeps.
+
+(* every call with special arguments IS one of the ordinary calls all theorems above are about (+-inf as a
+   speed is 2 / -2), or raises ValueError with nothing written *)
+Theorem C19_motor_specials_reduce : forall m o,
+  mstep_x m o = match lower o with
+                | Some op => lift (mstep m op)
+                | None => raised_x m XValueError
+                end.
+Proof. exact ActuatorsXP.mstep_x_lower. Qed.
+Print Assumptions C19_motor_specials_reduce.
+
+Theorem C19_motor_inv_step_specials : forall m o, motor_inv m -> motor_inv (xstate (mstep_x m o)).
+Proof. exact ActuatorsXP.mstep_x_inv. Qed.
+Print Assumptions C19_motor_inv_step_specials.
+
+(* the invariant after every history of ordinary calls and calls with NaN / infinite arguments *)
+Theorem C19_motor_inv_reachable_specials : forall i1 i2 en m0 (ops : list anyop),
+  motor_ctor i1 i2 en = inl m0 ->
+  motor_inv (mrun_any ops m0) /\ pins (mrun_any ops m0) = (i1, i2, en).
+Proof. exact ActuatorsXP.reachable_any_inv. Qed.
+Print Assumptions C19_motor_inv_reachable_specials.
+
+Theorem C19_motor_speed_bound_reachable : forall i1 i2 en m0 (ops : list anyop),
+  motor_ctor i1 i2 en = inl m0 -> -(1) <= speed (mrun_any ops m0) /\ speed (mrun_any ops m0) <= 1.
+Proof. exact ActuatorsXP.reachable_any_speed_bound. Qed.
+Print Assumptions C19_motor_speed_bound_reachable.
+
+(* run_for with ANY duration and speed: it raises having written and slept nothing, or it ends braked after
+   exactly one sleep of exactly the (then finite, non-negative) duration *)
+Theorem C19_run_for_any_argument : forall m d v,
+  (xres (run_for_x m d v) <> XOk /\ xstate (run_for_x m d v) = m /\ xevents (run_for_x m d v) = []) \/
+  (xres (run_for_x m d v) = XOk /\ exists q, d = XFin q /\ 0 <= q /\
+   sleeps (xevents (run_for_x m d v)) = [q] /\
+   mmode (xstate (run_for_x m d v)) = Brake /\ speed (xstate (run_for_x m d v)) = 0 /\
+   applied (xstate (run_for_x m d v)) = 0 /\ ghost (xstate (run_for_x m d v)) = LastStop).
+Proof. exact ActuatorsXP.run_for_x_outcome. Qed.
+Print Assumptions C19_run_for_any_argument.
+
+(* on finite arguments the calls with specials are the calls of the finite model *)
 Theorem C19_run_for_x_agrees : forall m q v,
-  run_for_x m (XFin q) v =
+  run_for_x m (XFin q) (XNum v) =
   (mstate (mstep m (MRunFor (PF q) v)), mevents (mstep m (MRunFor (PF q) v)), xres_of (mresult (mstep m (MRunFor (PF q) v)))).
 Proof. exact ActuatorsXP.run_for_x_finite. Qed.
 Print Assumptions C19_run_for_x_agrees.
 
 Theorem C19_ramp_x_agrees : forall m t q,
-  ramp_x m t (XFin q) =
+  ramp_x m (XNum t) (XFin q) =
   (mstate (mstep m (MRamp t (PF q))), mevents (mstep m (MRamp t (PF q))), xres_of (mresult (mstep m (MRamp t (PF q))))).
 Proof. exact ActuatorsXP.ramp_x_finite. Qed.
 Print Assumptions C19_ramp_x_agrees.
 
+(* the witnesses of the repaired findings (set_speed(nan); run_for(nan|inf, 0.5); ramp(0.5, inf|nan)) are
+   rejected with the motor untouched; infinite speeds clamp; finite calls go through *)
 Example C19_motor_specials_nonvacuous :
-  xclamp XNaN = XNaN /\ xclamp XPInf = XFin 1 /\ xclamp XNInf = XFin (-(1)) /\
-  run_for_x m_zero XNaN (PF (1 # 2)) = (m_half, [MLvl (1 # 2) (1 # 2) Drive], XRaised XValueError) /\
-  run_for_x m_zero XPInf (PF (1 # 2)) = (m_half, [MLvl (1 # 2) (1 # 2) Drive], XRaised XOverflowError) /\
-  run_for_x m_zero XNInf (PF (1 # 2)) = (m_zero, [], XRaised XValueError) /\
-  run_for_x m_zero XNaN PO = (m_zero, [], XRaised XTypeError) /\
-  ramp_x m_zero (PF (1 # 2)) XPInf =
-    (mkMotor (PI 2, PI 3, PI 5) (1 # 40) false Drive (1 # 40) LastOther, [MLvl (1 # 40) (1 # 40) Drive], XRaised XOverflowError) /\
-  sleeps (snd (fst (ramp_x m_zero (PF (1 # 2)) XNaN))) = [] /\
-  fst (fst (ramp_x m_zero (PF (1 # 2)) XNaN)) = m_half.
+  xclamp XNaN = None /\ xclamp XPInf = Some (XFin 1) /\ xclamp XNInf = Some (XFin (-(1))) /\
+  set_speed_x m_half (XSpec XNaN) = (m_half, [], XRaised XValueError) /\
+  backward_x m_half (XSpec XNaN) = (m_half, [], XRaised XValueError) /\
+  run_for_x m_zero XNaN (XNum (PF (1 # 2))) = (m_zero, [], XRaised XValueError) /\
+  run_for_x m_zero XPInf (XNum (PF (1 # 2))) = (m_zero, [], XRaised XValueError) /\
+  run_for_x m_zero XNInf (XNum (PF (1 # 2))) = (m_zero, [], XRaised XValueError) /\
+  run_for_x m_zero XNaN (XNum PO) = (m_zero, [], XRaised XValueError) /\
+  run_for_x m_zero (XFin 5) (XNum PO) = (m_zero, [], XRaised XTypeError) /\
+  run_for_x m_zero (XFin 5) (XSpec XNaN) = (m_zero, [], XRaised XValueError) /\
+  ramp_x m_zero (XNum (PF (1 # 2))) XPInf = (m_zero, [], XRaised XValueError) /\
+  ramp_x m_zero (XNum (PF (1 # 2))) XNaN = (m_zero, [], XRaised XValueError) /\
+  ramp_x m_half (XSpec XNaN) (XFin 20) = (m_half, [], XRaised XValueError) /\
+  set_speed_x m_zero (XSpec XPInf) =
+    (mkMotor (PI 2, PI 3, PI 5) 1 false Drive 1 LastOther, [MLvl 1 1 Drive], XOk) /\
+  run_for_x m_zero (XFin (5 # 2)) (XSpec XNInf) =
+    (mkMotor (PI 2, PI 3, PI 5) 0 false Brake 0 LastStop,
+     [MLvl (-1 # 1) (-1 # 1) Drive; MSleep (5 # 2); MLvl 0 0 Brake], XOk) /\
+  lower (XRunFor (XFin (5 # 2)) (XSpec XNInf)) = Some (MRunFor (PF (5 # 2)) (PI (-2))) /\
+  lower (XRamp (XSpec XNaN) (XFin 20)) = None /\
+  mrun_any [inl (MSetSpeed (PF (1 # 2))); inr (XSetSpeed (XSpec XNaN)); inr (XRunFor XPInf (XNum (PI 1))); inl MInvert] m_zero =
+    mkMotor (PI 2, PI 3, PI 5) (1 # 2) true Drive (-1 # 2) LastOther.
 Proof. vm_compute. repeat split. Qed.
 Print Assumptions C19_motor_specials_nonvacuous.
 
